@@ -48,7 +48,8 @@ def run_keep(case) -> None:
     expect = case["expect"]
     from netqasm.sdk.build_types import HardwareConfig
 
-    hw = {"nv": lambda: NVHardwareConfig(5), "generic": lambda: GenericHardwareConfig(5), "generic1": lambda: GenericHardwareConfig(1),
+    hw = {"nv": lambda: NVHardwareConfig(5), "nv2": lambda: NVHardwareConfig(2), "nv3": lambda: NVHardwareConfig(3), "generic2": lambda: GenericHardwareConfig(2),
+          "generic": lambda: GenericHardwareConfig(5), "generic1": lambda: GenericHardwareConfig(1),
           "custom1": lambda: HardwareConfig(1, 4)}[case["hardware"]]()
     sock = EPRSocket("bob")
     extra: Dict[str, Any] = {"hardware_config": hw}
@@ -62,7 +63,8 @@ def run_keep(case) -> None:
             extra["hardware_config"] = GenericHardwareConfig(5)
         elif case.get("hardware_given") == "nv":
             extra["hardware_config"] = hw
-    ctrl, conn = sim.fresh(sim.StateVectorExecutor, network_stack_cls=net.ScriptedNetworkStack, epr_sockets=[sock], max_qubits=5, **extra)
+    size = {"nv2": 2, "nv3": 3, "generic2": 2}.get(case["hardware"], 5)
+    ctrl, conn = sim.fresh(sim.StateVectorExecutor, network_stack_cls=net.ScriptedNetworkStack, epr_sockets=[sock], max_qubits=size, **extra)
     ex = ctrl._executor
     stack = ctrl.network_stack
     others = []
@@ -100,23 +102,24 @@ def run_keep(case) -> None:
     ex.before_measure_hook = before_measure
     kw: Dict[str, Any] = {}
     role = "create" if variant == "create_keep" else "recv"
-    api = {"recv_keep_seq": "recv_keep", "recv_keep_seq1": "recv_keep", "recv_keep_with_info_seq1": "recv_keep_with_info"}.get(variant, variant)
+    api = {"recv_keep_seq": "recv_keep", "recv_keep_post": "recv_keep", "recv_keep_seq1": "recv_keep", "recv_keep_with_info_seq1": "recv_keep_with_info"}.get(variant, variant)
     if variant.endswith("_seq1"):
         kw["sequential"] = True  # one pair, handled pair by pair, but nothing registered to handle it
     if role == "recv" and not (expect and case.get("expect_by_default")):
         kw["expect_phi_plus"] = expect  # (left out when the case relies on the documented default, True)
     outcomes = None
-    if variant == "recv_keep_seq":
+    if variant in ("recv_keep_seq", "recv_keep_post"):
         outcomes = conn.new_array(n)
 
         def post(c, q, pair):
             q.measure(future=outcomes.get_future_index(pair))
 
-        kw.update(sequential=True, post_routine=post)
+        kw.update(sequential=variant == "recv_keep_seq", post_routine=post)
     try:
         res = getattr(sock, api)(number=n, **kw)
     except ValueError as e:
-        raise Rejected(str(e)[:60])
+        # every generated request fits the device (pairs + other live qubits + the spare slot a single-communication-qubit device needs)
+        raise Failure(f"call-rejected:{variant}:{case['hardware']}", case, f"{api}(number={n}) with {case['others']} other live qubits on {case['hardware']} hardware was rejected: ValueError: {str(e)[:160]}")
     except AssertionError as e:
         import traceback
 
@@ -136,7 +139,7 @@ def run_keep(case) -> None:
     want_phi = expect and role == "recv"
     for i, b in enumerate(case["bells"]):
         target_vec = qm.BELL_VECS[0] if want_phi else qm.BELL_VECS[b]
-        if variant == "recv_keep_seq":
+        if variant in ("recv_keep_seq", "recv_keep_post"):
             if i not in measured:
                 raise Failure(f"pair-not-consumed:{variant}", case, f"pair {i} was never measured by the post routine")
             f_phi, f_orig = measured[i]
@@ -337,6 +340,20 @@ def keep_cases(max_pairs: int, ctx_open) -> List[Dict[str, Any]]:
                 for others in (0, 1):
                     for expect in (True, False):
                         cases.append({"kind": "keep", "bells": [b], "variant": variant, "hardware": hardware, "others": others if hardware != "generic1" else 0, "expect": expect})
+    # devices that the request fills completely
+    for hardware, combos in (("nv2", [(1, 1)]), ("nv3", [(1, 2), (2, 1), (1, 1)]), ("generic2", [(1, 1), (2, 0)])):
+        for n_, oth in combos:
+            for bells in itertools.product(range(4), repeat=n_):
+                for variant in ("recv_keep", "recv_keep_with_info", "create_keep", "recv_keep_seq"):
+                    for expect in (True, False):
+                        if variant == "create_keep" and not expect:
+                            continue
+                        cases.append({"kind": "keep", "bells": list(bells), "variant": variant, "hardware": hardware, "others": oth, "expect": expect})
+    # a post routine without sequential mode (the routine runs for every pair once all pairs are there)
+    for hardware in ("generic", "nv"):
+        for bells in ([1], [2, 3], [3, 0, 1]):
+            for expect in (True, False):
+                cases.append({"kind": "keep", "bells": list(bells), "variant": "recv_keep_post", "hardware": hardware, "others": 0, "expect": expect})
     # NV through the compiler argument alone; the expectation left at its documented default
     for given in ("generic", "default", "nv"):
         for bells in ([1], [2], [3, 1], [0, 2], [1, 2, 3]):
@@ -400,7 +417,7 @@ def excluded(case, open_keys) -> str:
     n = len(case["bells"])
     v = case["variant"]
     recv = v != "create_keep"
-    if case["hardware"] == "nv":
+    if case["hardware"].startswith("nv"):
         if v in ("recv_rsp", "recv_rsp_with_info") and n > 1 and KF_RSP_NV in open_keys:
             return KF_RSP_NV
         if case["others"] > 0 and n > 1 and v != "recv_keep_seq" and KF_NV_ASSERT in open_keys:
